@@ -51,6 +51,9 @@ num_leaf = st.one_of(st.sampled_from(['1', '2', '3', '5', '7', '10', '0']).map(l
 OPS_ALL = ['+', '-', '*', '/', '+', '-', '*', '/', '=', '<>', '<', '>', '<=', '>=', '&']
 
 
+array_leaf = st.sampled_from([['arr', [['num', '1'], ['num', '2']]], ['arr', [['num', '5']]], ['var', 'v_arr'], ['range', 'A1', 'B2']])
+
+
 def leaf_mix(p_src=3, p_lit=0):
     alts = [num_leaf] * 4 + [sources.map(lambda s: s[:3] + ([s[3]] if len(s) > 3 else []))] * p_src + [literals] * p_lit
     return st.one_of(*alts)
@@ -62,15 +65,15 @@ def make_env():
 
     def eraise(k):
         raise sing[k]
-    vars_ = {'v_a': 4, 'v_b': 9}
+    vars_ = {'v_a': 4, 'v_b': 9, 'v_arr': [3, 4, 5]}
     cells = {'B2': 6}
     for i, c in enumerate(CODES8):
         vars_['v_e%s' % 'abcdefgh'[i]] = sing[i]
         cells['E%d' % (i + 1)] = sing[i]
-    return Env(vars=vars_, cells=cells, funcs={'ERET': lambda k: sing[k], 'ERAISE': eraise})
+    return Env(vars=vars_, cells=cells, ranges={'A1:B2': [7, 8]}, funcs={'ERET': lambda k: sing[k], 'ERAISE': eraise})
 
 
-REF_ENV = {'vars': {'v_a': 4, 'v_b': 9}, 'cells': {'B2': 6}, 'funcs': {}}
+REF_ENV = {'vars': {'v_a': 4, 'v_b': 9, 'v_arr': [3, 4, 5]}, 'cells': {'B2': 6}, 'ranges': {'A1:B2': [7, 8]}, 'funcs': {}}
 
 
 def has_error_leaf(t):
@@ -83,6 +86,12 @@ def prop_case(draw):
     t = draw(gf.tree_strategy(leaf_mix(3, 2 if with_lit else 0), ops=OPS_ALL, max_leaves=8))
     if not has_error_leaf(t):
         t = ['bin', draw(st.sampled_from(OPS_ALL)), t, draw(sources)[:3]] if draw(st.booleans()) else ['bin', draw(st.sampled_from(OPS_ALL)), draw(sources)[:3], t]
+    if draw(st.integers(0, 5)) == 0:
+        # an array as the other operand of an arithmetic operator whose operand is an error
+        src = draw(sources)[:3]
+        arr = draw(array_leaf)
+        pair = ['bin', draw(st.sampled_from(gf.ARITH)), arr, src] if draw(st.booleans()) else ['bin', draw(st.sampled_from(gf.ARITH)), src, arr]
+        t = ['bin', draw(st.sampled_from(gf.ARITH)), ['paren', pair], t] if draw(st.booleans()) else pair
     return {'tree': t, 'style': draw(st.sampled_from(['min', 'full']))}
 
 
@@ -150,6 +159,8 @@ def check_trapping(case):
     if isinstance(xv, tuple):
         expect_top(text, r, xv, 'error literal inside')      # a literal aborts the whole formula
         return
+    if isinstance(xv, list) or isinstance(yv, list):
+        raise Skip('array-valued')      # what the observers do with a whole array is not stated
     is_err = isinstance(xv, Err)
     is_na = is_err and xv.code == '#N/A'
     if trap == 'IFERROR':
@@ -201,7 +212,7 @@ def check_matrix(node):
     table = [(X, Err(code)), ('%s+1' % X, Err(code)), ('1*%s' % X, Err(code)), ('%s=1' % X, Err(code)), ('1<%s' % X, Err(code)), ('%s<>%s' % (X, X), Err(code)),
              ('%s&"a"' % X, Err(code)), ('"a"&%s' % X, Err(code)), ('-%s' % X, Err(code)), ('(%s)' % X, Err(code)),
              ('IFERROR(%s,42)' % X, 42), ('IFNA(%s,42)' % X, 42 if na else Err(code)), ('ISERROR(%s)' % X, True), ('ISERR(%s)' % X, not na), ('ISNA(%s)' % X, na),
-             ('ERROR.TYPE(%s)' % X, TYPE_NO[code]), ('IFERROR(%s+1,42)' % X, 42), ('IFERROR(-%s,42)' % X, 42), ('IFERROR(%s=1,42)' % X, 42), ('IFERROR(%s&"a",42)' % X, 42),
+             ('ERROR.TYPE(%s)' % X, TYPE_NO[code]), ('IFERROR(%s+1,42)' % X, 42), ('{1,2}+%s' % X, Err(code)), ('%s*{1,2}' % X, Err(code)), ('IFERROR({5}-%s,42)' % X, 42), ('ISERROR(%s/v_arr)' % X, True), ('IFERROR(-%s,42)' % X, 42), ('IFERROR(%s=1,42)' % X, 42), ('IFERROR(%s&"a",42)' % X, 42),
              ('ISERROR(ABS(%s))' % X, True), ('IFERROR(IFERROR(%s,%s),7)' % (X, X), 7)]
     for text, want in table:
         r = env.parse(text)
@@ -228,6 +239,8 @@ def prop_classes(case):
         out.add('under-amp')
     if any(n[0] == 'neg' for n in gf.walk(t)):
         out.add('under-neg')
+    if any(n[0] in ('arr', 'range') or (n[0] == 'var' and n[1] == 'v_arr') for n in gf.walk(t)):
+        out.add('array-operand')
     codes = set(n[2] for n in gf.walk(t) if n[0] == 'src')
     if len(codes) >= 2:
         out.add('two-codes')
@@ -257,10 +270,10 @@ def depth_of_error(t, d=0):
 
 
 LAWS = [
-    Law('matrix', check_matrix, enumerate=enum_matrix, exhaustive=True, shards=(8, 8), weight=lambda n: 22 if n[0] == 'src' else 8,
+    Law('matrix', check_matrix, enumerate=enum_matrix, exhaustive=True, shards=(8, 8), weight=lambda n: 26 if n[0] == 'src' else 8,
         rule='every error code x every production route (variable, cell, host function returning / raising, SUM / MAX / PRODUCT raising, nested call; operator- and builtin-made ones), bare, under each operator kind, and under each trapping function; all 9 error literals'),
     Law('propagation', check_propagation, strategy=prop_case(), classes=prop_classes, key=prop_key, quick=4000, thorough=200000, shards=(8, 16),
-        required=('under-comparison', 'under-amp', 'under-neg', 'two-codes', 'route:literal', 'route:host-raises', 'route:SUM-raises', 'route:operator', 'route:var'),
+        required=('under-comparison', 'under-amp', 'under-neg', 'two-codes', 'array-operand', 'route:literal', 'route:host-raises', 'route:SUM-raises', 'route:operator', 'route:var'),
         nontrivial=lambda c: depth_of_error(c['tree']) >= 2 or 'two-codes' in prop_classes(c),
         rule='generated trees (up to 8 leaves) with error sources at generated leaves under + - * / = <> < > <= >= & unary minus and parentheses: the outcome is the reference error (left operand first; first literal in evaluation order) with an empty result; '
              'non-trivial = an error leaf at depth >= 2 or two different codes in one formula'),
